@@ -383,7 +383,13 @@ def _directed(ctx, rep):
                             out1 = "ok"
                         except BaseException as e:      # noqa: BLE001
                             out1 = type(e).__name__
-                        mid = reader.view(env.store())
+                        try:
+                            mid = reader.view(env.store())
+                        except reader.Broken as e:
+                            rep.evaluations += 1
+                            rep.violate("C04:a-retained-snapshot-is-unreadable", f"{backend}: commit whose pointer write landed and then raised ended {out1}; afterwards: {e}",
+                                        {"kind": "transaction-reused-after-ambiguous-commit", "backend": backend, "first": out1})
+                            continue
                         # the same Transaction object again
                         out2 = None
                         try:
